@@ -6,7 +6,7 @@ import vm_corr, vm_checks, progs
 PROP_MODULE = "NeverModel.Props.C14"
 REQUIRED = ["Never.C14.push_in_bounds_or_reported", "Never.C14.mark_in_bounds", "Never.C14.heap_limit_reported",
             "Never.C14.no_handler_writes_outside_the_stack", "Never.C14.no_step_writes_outside_the_stack",
-            "Never.C14.verified_slide_stores_in_frame", "Never.C14.read_build_in_pushes_unchecked",
+            "Never.C14.verified_slide_stores_in_frame", "Never.C14.read_build_in_pushed_unchecked_pinned_counterexample",
             "Never.C14.slide_below_the_array_counterexample", "Never.C14.alloc_in_heap_or_reported",
             "Never.C14.vm_heap_limit_reported", "Never.C14.limit_report_propagates", "Never.C14.heap_reads_in_heap",
             "Never.C14.guarded_stores_in_heap"]
